@@ -71,6 +71,9 @@ const V_STATE: &str = "the state recovered after compaction differs from the sta
 const V_MANIFEST: &str = "after an Ok compaction the manifest does not describe the store";
 const V_RECOVER: &str = "recovery fails on an intact layout";
 const V_COMPERR: &str = "compaction failed on a healthy store";
+const V_DROPPED: &str = "compaction retired a segment it could not read (dropped it from the manifest or deleted it) although none of its deltas were merged";
+const V_STEP: &str = "the state recovered at a crash instant inside the compaction differs from the state recovered before it";
+const V_UNDET: &str = "a damaged segment image passes SegmentReader::open and validate and decodes to different deltas";
 const V_INTER: &str = "a flush interleaved with a compaction outside the manifest race window changed the recovered state";
 
 type KV = BTreeMap<String, ReplicatedValue>;
@@ -158,6 +161,38 @@ struct Inner {
     started: [bool; 2],
     /// the map as it was when the actor made its first call under a schedule
     snap_first: [Option<Map>; 2],
+    /// outcome of every logged call ("OK", "GB" = get returned bytes damaged in transit,
+    /// "EN" = the call failed without effect), parallel to `log`
+    outcomes: Vec<&'static str>,
+    /// the whole map after every logged call
+    snaps: Vec<Map>,
+    /// read fault armed for the n-th GET of a segment object (0-based, counted while logging)
+    read_fault: Option<ReadFault>,
+    seg_gets: usize,
+    /// what the armed read fault did, once it fired
+    fault_note: Option<String>,
+    /// a damaged image that still decodes to DIFFERENT deltas was handed out
+    undetected: Option<String>,
+}
+#[derive(Clone, Debug)]
+enum ReadFault {
+    /// the bytes returned by the get have one bit flipped (the object at rest is untouched)
+    Garble { nth: usize, pos_draw: u64, bit: u8, region: u8 },
+    /// the get fails with an I/O error of kind Other
+    Fail { nth: usize },
+}
+fn region_name(pos: usize, len: usize) -> &'static str {
+    if pos < 64 { "header" } else if pos + 24 >= len { "footer" } else { "data" }
+}
+/// position of the flipped byte: region 0 = header (first 64 bytes), 1 = record data, 2 = footer (last 24)
+fn flip_pos(len: usize, region: u8, draw: u64) -> usize {
+    if len == 0 { return 0; }
+    let (lo, hi) = match region {
+        0 => (0usize, 64.min(len)),
+        2 => (len.saturating_sub(24), len),
+        _ => if len > 88 { (64, len - 24) } else { (0, len) },
+    };
+    lo + (draw as usize) % (hi - lo).max(1)
 }
 impl Inner {
     /// may `actor` make its next call now?  (claims the schedule slot when it may)
@@ -185,8 +220,14 @@ impl Inner {
         ok
     }
     fn rec(&mut self, actor: u8, c: CallDesc) {
+        self.rec_o(actor, c, "OK");
+    }
+    fn rec_o(&mut self, actor: u8, c: CallDesc, o: &'static str) {
         if self.logging {
             self.log.push((actor, c));
+            self.outcomes.push(o);
+            let m = self.map.clone();
+            self.snaps.push(m);
         }
     }
 }
@@ -209,7 +250,25 @@ impl ScriptedStore {
     fn start_log(&self) {
         let mut g = self.inner.lock().unwrap();
         g.log.clear();
+        g.outcomes.clear();
+        g.snaps.clear();
+        g.seg_gets = 0;
         g.logging = true;
+    }
+    fn arm_read_fault(&self, f: Option<ReadFault>) {
+        self.inner.lock().unwrap().read_fault = f;
+    }
+    fn take_outcomes(&self) -> Vec<&'static str> {
+        std::mem::take(&mut self.inner.lock().unwrap().outcomes)
+    }
+    fn take_snaps(&self) -> Vec<Map> {
+        std::mem::take(&mut self.inner.lock().unwrap().snaps)
+    }
+    fn fault_note(&self) -> Option<String> {
+        self.inner.lock().unwrap().fault_note.clone()
+    }
+    fn undetected(&self) -> Option<String> {
+        self.inner.lock().unwrap().undetected.clone()
     }
     fn take_log(&self) -> Vec<(u8, CallDesc)> {
         let mut g = self.inner.lock().unwrap();
@@ -219,6 +278,8 @@ impl ScriptedStore {
     fn arm(&self, schedule: Vec<u8>) {
         let mut g = self.inner.lock().unwrap();
         g.log.clear();
+        g.outcomes.clear();
+        g.snaps.clear();
         g.logging = true;
         g.sched = Some(schedule);
         g.pos = 0;
@@ -265,8 +326,45 @@ impl ObjectStore for ScriptedStore {
         Box::pin(async move {
             self.turn().await;
             let mut g = self.inner.lock().unwrap();
-            let res = g.map.get(key).map(|d| d.as_ref().clone()).ok_or_else(|| not_found(key));
-            g.rec(self.actor, CallDesc::Get(Name::of(key)));
+            let mut res = g.map.get(key).map(|d| d.as_ref().clone()).ok_or_else(|| not_found(key));
+            let mut outcome = "OK";
+            if g.logging && matches!(Name::of(key), Name::Seg(_)) {
+                let n = g.seg_gets;
+                g.seg_gets += 1;
+                match g.read_fault.clone() {
+                    Some(ReadFault::Fail { nth }) if nth == n => {
+                        res = Err(IoError::new(ErrorKind::Other, "injected read failure"));
+                        outcome = "EN";
+                        g.fault_note = Some(format!("get #{} of a segment ({}) failed with an I/O error", n, key));
+                    }
+                    Some(ReadFault::Garble { nth, pos_draw, bit, region }) if nth == n => {
+                        if let Ok(buf) = &mut res {
+                            if !buf.is_empty() {
+                                let clean = read_seg(buf);
+                                let pos = flip_pos(buf.len(), region, pos_draw);
+                                buf[pos] ^= 1u8 << (bit % 8);
+                                let seen = read_seg(buf);
+                                let same = match (&clean, &seen) {
+                                    (Some(a), Some(b)) => a.len() == b.len() && a.iter().zip(b.iter()).all(|(x, y)| x.key == y.key && x.source_replica == y.source_replica && obs(&x.value) == obs(&y.value)),
+                                    _ => false,
+                                };
+                                let what = format!("get #{} of a segment ({}): bit {} of byte {} of {} flipped in the returned buffer ({}), object at rest intact", n, key, bit % 8, pos, buf.len(), region_name(pos, buf.len()));
+                                if seen.is_none() {
+                                    outcome = "GB";
+                                    g.fault_note = Some(format!("{}: rejected by SegmentReader::open/validate/read_all", what));
+                                } else if same {
+                                    g.fault_note = Some(format!("{}: harmless (decodes to the same deltas)", what));
+                                } else {
+                                    g.undetected = Some(format!("{}: the damaged image passes open+validate and decodes to different deltas", what));
+                                    g.fault_note = g.undetected.clone();
+                                }
+                            }
+                        }
+                    }
+                    _ => {}
+                }
+            }
+            g.rec_o(self.actor, CallDesc::Get(Name::of(key)), outcome);
             res
         })
     }
@@ -950,10 +1048,14 @@ impl Layout {
     fn cutoff(&self) -> u64 {
         self.now.saturating_sub(self.ttl_ms)
     }
-    fn objects_term(&self, p: &mut dyn Pr) -> String {
+    fn objects_term(&self, p: &mut dyn Pr, damaged: Option<u64>) -> String {
         let mut v: Vec<String> = Vec::new();
         for s in &self.segs {
-            v.push(format!("(OS {} {})", s.id, deltas_term(s.deltas.iter(), p)));
+            if damaged == Some(s.id) {
+                v.push(format!("(OT (NSeg {}))", s.id));
+            } else {
+                v.push(format!("(OS {} {})", s.id, deltas_term(s.deltas.iter(), p)));
+            }
         }
         if let Some(c) = &self.ck {
             v.push(format!("(OC {} {})", c.ts, kv_term(&c.state, p)));
@@ -1200,16 +1302,72 @@ async fn run_case(seed: u64, i: u64, verbose: bool, inter: u64, plain: bool, out
     let mut rng = case_rng(seed, i);
     let lay = gen_layout(&mut rng);
     let manifest = lay.manifest();
-    let map0 = build_map(&lay).await;
+    let map_clean = build_map(&lay).await;
     let man_key = format!("{}/manifest.json", PREFIX);
+
+    // ---- the read fault of this case, drawn from its own stream (layouts stay what they were):
+    // 55% none; 25% one GET of an input returns bytes with a flipped bit (object at rest intact);
+    // 8% one GET of an input fails; 12% one listed segment is damaged at rest
+    let mut frng = case_rng(seed ^ 0x13C0_FA17, i);
+    let fdraw: f64 = frng.gen();
+    // a dry run tells how many segment GETs the fault-free compaction makes
+    let n_seg_gets = {
+        let st = ScriptedStore::new(map_clean.clone());
+        st.start_log();
+        let mut cp = Compactor::with_time_source(Arc::new(st.clone()), PREFIX.to_string(), ManifestManager::new(st.clone(), PREFIX), lay.cc(), FixedTime(lay.now));
+        let _ = cp.compact().await;
+        st.take_log().iter().filter(|(_, c)| matches!(c, CallDesc::Get(Name::Seg(_)))).count()
+    };
+    let mut map0 = map_clean.clone();
+    let mut damaged: Option<u64> = None;
+    let mut read_fault: Option<ReadFault> = None;
+    let mut fault_kind = "read-fault:none";
+    if fdraw >= 0.55 && fdraw < 0.88 && n_seg_gets > 0 {
+        let nth = frng.gen_range(0..n_seg_gets);
+        if fdraw < 0.80 {
+            read_fault = Some(ReadFault::Garble { nth, pos_draw: frng.gen(), bit: frng.gen_range(0..8), region: frng.gen_range(0..3) });
+            fault_kind = "read-fault:get-returns-flipped-bit";
+        } else {
+            read_fault = Some(ReadFault::Fail { nth });
+            fault_kind = "read-fault:get-fails";
+        }
+    } else if fdraw >= 0.88 && !lay.segs.is_empty() {
+        let sseg = &lay.segs[frng.gen_range(0..lay.segs.len())];
+        for _ in 0..8 {
+            let mut buf = sseg.data.clone();
+            if buf.is_empty() { break; }
+            let pos = flip_pos(buf.len(), frng.gen_range(0..3), frng.gen());
+            buf[pos] ^= 1u8 << frng.gen_range(0..8);
+            if read_seg(&buf).is_none() {
+                map0.insert(sseg.info.key.clone(), Arc::new(buf));
+                damaged = Some(sseg.id);
+                fault_kind = "read-fault:segment-damaged-at-rest";
+                break;
+            }
+        }
+    }
+    out.count(fault_kind);
 
     // ---- sequential run
     let rec_b = do_recover(&map0).await;
     let store = ScriptedStore::new(map0.clone());
+    store.arm_read_fault(read_fault.clone());
     store.start_log();
     let mut comp = Compactor::with_time_source(Arc::new(store.clone()), PREFIX.to_string(), ManifestManager::new(store.clone(), PREFIX), lay.cc(), FixedTime(lay.now));
     let cres = CRes::of(comp.compact().await);
     let calls: Vec<CallDesc> = store.take_log().into_iter().map(|(_, c)| c).collect();
+    let outcomes: Vec<&'static str> = store.take_outcomes();
+    let snaps: Vec<Map> = store.take_snaps();
+    let fault_note = store.fault_note();
+    let faulted = read_fault.is_some() || damaged.is_some();
+    if let Some(n) = &fault_note {
+        out.count(if n.contains("harmless") { "read-fault:flip-harmless" } else if n.contains("rejected") { "read-fault:flip-rejected" } else if n.contains("failed") { "read-fault:get-failed" } else { "read-fault:flip-undetected" });
+        for r in ["(header)", "(data)", "(footer)"] {
+            if n.contains(r) { out.count(&format!("read-fault:flip-in-{}", &r[1..r.len() - 1])); }
+        }
+    } else if read_fault.is_some() {
+        out.count("read-fault:not-reached");
+    }
     let map1 = store.map();
     let rec_a = do_recover(&map1).await;
 
@@ -1236,7 +1394,8 @@ async fn run_case(seed: u64, i: u64, verbose: bool, inter: u64, plain: bool, out
     };
     let seg_items: Vec<String> = manifest.segments.iter().map(|s| sg(s)).collect();
     let ck_item: Option<String> = lay.ck.as_ref().map(|c| format!("(CK {} {} {} {})", c.ts, c.ts, c.state.len(), c.last));
-    let call_items: Vec<String> = calls.iter().map(|c| c.term()).collect();
+    let call_terms: Vec<(String, &'static str)> = calls.iter().zip(outcomes.iter()).map(|(c, o)| (c.term(), *o)).collect();
+    let call_items: Vec<String> = call_terms.iter().map(|(c, o)| format!("({}, {})", c, o)).collect();
     let name_items: Vec<String> = map1.keys().map(|k| Name::of(k).term()).collect();
     let after_parts: Option<(u64, Vec<String>, u64)> = if man_changed { man_after.as_ref().map(|m| (m.version, m.segments.iter().map(|s| sg(s)).collect(), m.next_segment_id)) } else { None };
     let rb: Option<Vec<ReplicationDelta>> = rec_b.as_ref().ok().map(|r| r.deltas.clone());
@@ -1259,10 +1418,10 @@ async fn run_case(seed: u64, i: u64, verbose: bool, inter: u64, plain: bool, out
             st.list("seginfo", &seg_items),
             st.opt("ckinfo", &ck_item),
             manifest.next_segment_id.to_string(),
-            lay.objects_term(p),
+            lay.objects_term(p, damaged),
             sz.to_string(),
             cres.term(st),
-            st.list("call", &call_items),
+            st.list("(prod call outcome)", &call_terms.iter().map(|(c, o)| st.pair("call", "outcome", c, o)).collect::<Vec<_>>()),
             after_t,
             st.list("name", &name_items),
             opt_deltas_term(&newseg, p),
@@ -1354,11 +1513,19 @@ async fn run_case(seed: u64, i: u64, verbose: bool, inter: u64, plain: bool, out
 
     // ---- oracle (0): recovery and compaction succeed on an intact layout and a healthy store
     out.impl_checks += 2;
-    if let Err(e) = &rec_b {
+    if let (Err(e), None) = (&rec_b, damaged) {
         out.count(&format!("violation:{}", V_RECOVER));
         out.violation(i, V_RECOVER, json!({"when": "before compaction", "error": e, "layout": layout_t}));
     }
-    if let CRes::Err(e) = &cres {
+    if let Some(u) = store.undetected() {
+        out.count(&format!("violation:{}", V_UNDET));
+        out.violation(i, V_UNDET, json!({"what": u, "layout": layout_t}));
+    }
+    let get_failed = outcomes.iter().any(|o| *o == "EN");
+    if verbose {
+        println!("read fault of this case: {}{}", fault_kind, fault_note.as_ref().map(|n| format!(" - {}", n)).unwrap_or_default());
+    }
+    if let (CRes::Err(e), false) = (&cres, get_failed) {
         out.count(&format!("violation:{}", V_COMPERR));
         out.violation(i, V_COMPERR, json!({"error": e, "layout": layout_t, "config": lay.config_json()}));
     }
@@ -1375,6 +1542,64 @@ async fn run_case(seed: u64, i: u64, verbose: bool, inter: u64, plain: bool, out
         }
         v
     };
+    // ---- oracle (R): a segment the compaction could not read must stay listed and stored
+    let mut unread: Vec<u64> = damaged.into_iter().collect();
+    for (c, o) in calls.iter().zip(outcomes.iter()) {
+        if let (CallDesc::Get(Name::Seg(id)), true) = (c, *o == "GB" || *o == "EN") {
+            unread.push(*id);
+        }
+    }
+    for id in &unread {
+        out.impl_checks += 1;
+        let key = seg_key(*id);
+        let still_listed = man_after.as_ref().map_or(false, |m| m.segments.iter().any(|s| s.id == *id));
+        let untouched = map1.get(&key).map(|d| d.as_ref()) == map0.get(&key).map(|d| d.as_ref());
+        let same_verdict = rec_a.is_ok() == rec_b.is_ok();
+        let ok = still_listed && untouched && same_verdict;
+        if verbose {
+            println!("oracle (R) segment {} could not be read by the compaction: still listed {}, object untouched {}, recovery before {} / after {}: {}", id, still_listed, untouched,
+                if rec_b.is_ok() { "Ok" } else { "Err" }, if rec_a.is_ok() { "Ok" } else { "Err" }, if ok { "ok" } else { "VIOLATED" });
+        }
+        if !ok {
+            out.count(&format!("violation:{}", V_DROPPED));
+            out.violation(i, V_DROPPED, base(json!({"segment": id, "read_fault": fault_kind, "what_happened": fault_note, "still_listed": still_listed, "object_untouched": untouched,
+                "recover_before": if rec_b.is_ok() { "Ok" } else { "Err" }, "recover_after": if rec_a.is_ok() { "Ok" } else { "Err" },
+                "store_calls": call_items})));
+        }
+    }
+    // ---- oracle (S): the state recovered at every crash instant inside the compaction
+    if let Ok(rb_) = &rec_b {
+        if cres.tombstones_removed() == 0 {
+            let s0 = rb_.fold();
+            let mut last: Option<&Map> = None;
+            for (j, snap) in snaps.iter().enumerate() {
+                if last.map_or(false, |l| l == snap) {
+                    continue;
+                }
+                last = Some(snap);
+                out.impl_checks += 1;
+                let bad: Option<String> = match do_recover(snap).await {
+                    Err(e) => Some(format!("recovery fails: {}", e)),
+                    Ok(r) => {
+                        let dk = diff_keys(&s0, &r.fold(), false);
+                        if dk.is_empty() { None } else { Some(format!("keys {:?} differ", dk)) }
+                    }
+                };
+                if let Some(b) = bad {
+                    if verbose {
+                        println!("oracle (S) crash after {} of the compaction's store calls: VIOLATED ({})", j + 1, b);
+                    }
+                    out.count(&format!("violation:{}", V_STEP));
+                    out.violation(i, V_STEP, base(json!({"crash_after_calls": j + 1, "what": b, "read_fault": fault_kind, "what_happened": fault_note, "store_calls": call_items})));
+                    break;
+                }
+            }
+            out.count("crash-instants:checked");
+        } else {
+            out.count("crash-instants:skipped(tombstones dropped)");
+        }
+    }
+
     let mut dk_seq: Vec<String> = Vec::new();
     let mut s_before = KV::new();
     let mut s_after_opt: Option<KV> = None;
@@ -1453,6 +1678,9 @@ async fn run_case(seed: u64, i: u64, verbose: bool, inter: u64, plain: bool, out
                     }
                 }
                 for s in &m.segments {
+                    if damaged == Some(s.id) {
+                        continue; // damaged at rest before the compaction started: oracle (R) checks it stays
+                    }
                     match map1.get(&s.key).and_then(|d| read_seg(d)) {
                         None => problem = Some(format!("listed segment {} is missing or does not read back", s.key)),
                         Some(ds) if ds.len() != s.record_count as usize => problem = Some(format!("listed segment {} holds {} deltas, the manifest says {}", s.key, ds.len(), s.record_count)),
@@ -1475,7 +1703,7 @@ async fn run_case(seed: u64, i: u64, verbose: bool, inter: u64, plain: bool, out
     }
 
     // ---- oracle (3): interleavings with a concurrent flush
-    let eligible = rec_b.is_ok() && cres.created().is_some();
+    let eligible = rec_b.is_ok() && cres.created().is_some() && !faulted;
     // the random schedules are drawn whether or not the case is eligible
     let n_c = calls.len();
     let mut schedules: Vec<Vec<u8>> = Vec::new();
@@ -1656,7 +1884,7 @@ fn main() {
     let inter = args.get("inter", 6);
     let plain = args.get("plain", 0) != 0;
     let mut out = Out::new(&args.out, "C13", args.shards, HEADER);
-    out.nontrivial_rule = "a case = a layout of 2-6 segments (1-8 deltas each, the first one or two larger in 60%; real SegmentWriter) plus a checkpoint in 30% (last_segment_id below every listed id; real CheckpointWriter) and the manifest flush would have written, holding SET (30% with expiry) / DEL / HSET / HDEL updates over keys k/j/m (strings) and h/g (hashes, fields f1..f3; in half of the cases every replica writes its own field) issued by 2-4 real ShardReplicaStates with independent clocks (small with ties / interleaved with cross delivery / one far ahead), assigned to segments in generation order with swaps and duplicates (overlapping stamp ranges, the same key in several segments); 55% plant SET K early (first segment or checkpoint) and DEL K later; CompactionConfig: target_segment_size = the size of the largest or second largest segment in about half of the cases (segments of at least that size are skipped) else huge, min_segments_to_compact 2-3, max_segments_per_compaction 2/3/5, tombstone_ttl 100 ms or 24 h; time source 50% production-like (1.758e12), 25% 0, 25% a logical stamp of the layout + ttl; non-trivial = the compaction returned Ok; distinct by layout text. Interleavings (cases whose sequential compaction created a segment; not part of the Coq case, the model runs operations sequentially): one flush of 1-3 new deltas through the real StreamingPersistence runs concurrently with the compaction on a fresh copy of the layout; they are produced by admitting the two operations' store calls in a scripted order (two handles of one scripted store carrying an actor id, every store call waits with yield_now until the schedule names its actor, both futures driven by tokio::join! on a current-thread runtime); schedules = the flush's 4 calls as one block after j of the compaction's n calls (j = 0..n) plus --inter random merges".into();
+    out.nontrivial_rule = "a case = a layout of 2-6 segments (1-8 deltas each, the first one or two larger in 60%; real SegmentWriter) plus a checkpoint in 30% (last_segment_id below every listed id; real CheckpointWriter) and the manifest flush would have written, holding SET (30% with expiry) / DEL / HSET / HDEL updates over keys k/j/m (strings) and h/g (hashes, fields f1..f3; in half of the cases every replica writes its own field) issued by 2-4 real ShardReplicaStates with independent clocks (small with ties / interleaved with cross delivery / one far ahead), assigned to segments in generation order with swaps and duplicates (overlapping stamp ranges, the same key in several segments); 55% plant SET K early (first segment or checkpoint) and DEL K later; CompactionConfig: target_segment_size = the size of the largest or second largest segment in about half of the cases (segments of at least that size are skipped) else huge, min_segments_to_compact 2-3, max_segments_per_compaction 2/3/5, tombstone_ttl 100 ms or 24 h; time source 50% production-like (1.758e12), 25% 0, 25% a logical stamp of the layout + ttl; read faults of the sequential run, drawn per case from a separate stream: 25% one GET of an input segment returns the bytes with one bit flipped in header / record data / footer while the object at rest is intact (outcome GB if the real SegmentReader rejects the image, OK if the flip is harmless), 8% one GET of an input fails (EN), 12% one listed segment is damaged at rest (an undecodable object in the Coq case), 55% none; recovery itself always reads clean; every crash instant inside the compaction is recovered too; non-trivial = the compaction returned Ok; distinct by layout text. Interleavings (fault-free cases whose sequential compaction created a segment; not part of the Coq case, the model runs operations sequentially): one flush of 1-3 new deltas through the real StreamingPersistence runs concurrently with the compaction on a fresh copy of the layout; they are produced by admitting the two operations' store calls in a scripted order (two handles of one scripted store carrying an actor id, every store call waits with yield_now until the schedule names its actor, both futures driven by tokio::join! on a current-thread runtime); schedules = the flush's 4 calls as one block after j of the compaction's n calls (j = 0..n) plus --inter random merges".into();
     if !verbose {
         std::panic::set_hook(Box::new(|_| {}));
     }
